@@ -46,6 +46,11 @@ func decodeWith(api int, doc []byte, cast bool) (map[string]interface{}, error) 
 }
 
 func c01Exec(op string) string {
+	if strings.HasPrefix(op, "xtok ") {
+		// the tokenizer model (Model/Tokenizer.lean, C01_bytes_*: Props/C01ExtBytes.lean) against
+		// encoding/xml on the bytes of the same document, inside the subset tokModelSupports describes
+		return xtokExec(op)
+	}
 	c, _ := newCur(op)
 	o := c.decOpt()
 	c.val() // strconv table
@@ -69,6 +74,10 @@ func c01Exec(op string) string {
 }
 
 func c01Describe(op string) string {
+	if strings.HasPrefix(op, "xtok ") {
+		c, _ := newCur(op)
+		return fmt.Sprintf("tokenizer model vs encoding/xml on the document doc=%q", c.str())
+	}
 	c, _ := newCur(op)
 	o := c.decOpt()
 	c.val()
@@ -81,6 +90,9 @@ func c01Describe(op string) string {
 }
 
 func c01Judge(op, impl, model string) Verdict {
+	if strings.HasPrefix(op, "xtok ") {
+		return xtokJudge(op, impl, model)
+	}
 	v := Verdict{Tags: []string{"xdoc"}}
 	if strings.HasPrefix(model, "skip-") {
 		v.Skipped, v.CorrOK = true, true
@@ -163,11 +175,37 @@ func c01Fixed() []string {
 	}
 }
 
+// xdocBytes: the document of an xdoc op line
+func xdocBytes(op string) (string, bool) {
+	if !strings.HasPrefix(op, "xdoc ") {
+		return "", false
+	}
+	c, _ := newCur(op)
+	c.decOpt()
+	c.val()
+	c.val()
+	c.pos++
+	c.val()
+	doc := c.str()
+	return doc, c.err == nil
+}
+
 func c01Gen(r *Rng, n int) []string {
 	var ops []string
 	for len(ops) < n {
 		g := c01Gen0
 		ops = append(ops, genXdoc(r, &g, r.P(30)))
+	}
+	// C01ExtBytes: the byte-level theorems rest on the tokenizer model; compare it with
+	// encoding/xml on the generated documents (varied surface syntax: references, CDATA, quote
+	// styles, white space in tags, comments, PIs); documents outside the model's subset
+	// (tokModelSupports) are counted as xtok:skip.  These ops come on top of the n xdoc ops.
+	// (one document in two, and none of the rare LARGE ones: the model tokenizer re-checks progress
+	// per step, which is quadratic on very long inputs; c02.go and c19.go compare more documents)
+	for i, op := range ops[:len(ops):len(ops)] {
+		if doc, ok := xdocBytes(op); ok && i%2 == 0 && len(doc) < 20000 {
+			ops = append(ops, "xtok "+encStr(doc))
+		}
 	}
 	return ops
 }
